@@ -354,6 +354,7 @@ type c20Chan struct {
 	scid     lnwire.ShortChannelID
 	variant  string
 	taproot  bool // announcement carries the simple-taproot feature bit
+	lastSlot bool // funding tx is the block's last, funding output the tx's last
 	capacity int64
 	ann      *c20Msg
 	upds     [2][]*c20Msg // authentic updates per direction
@@ -476,8 +477,14 @@ func (u *c20Universe) buildChainFor(c *c20Chan) {
 
 	// The funding transaction: outputs 0..pos (+1 spare), the funding
 	// script at pos.
+	// (the spare output / transaction after the funding one is present
+	// unless the channel sits, legitimately, in the last slot)
+	spare := 1
+	if c.lastSlot && (c.variant == "good" || c.variant == "spent") {
+		spare = 0
+	}
 	var outs []*wire.TxOut
-	for i := 0; i <= pos+1; i++ {
+	for i := 0; i <= pos+spare; i++ {
 		if i == pos {
 			outs = append(outs, out(script, c.capacity))
 		} else {
@@ -502,7 +509,7 @@ func (u *c20Universe) buildChainFor(c *c20Chan) {
 
 	// Block: a coinbase-like tx first, fillers, the funding tx at idx.
 	var txs []*wire.MsgTx
-	for i := 0; i <= idx+1; i++ {
+	for i := 0; i <= idx+spare; i++ {
 		if i == idx {
 			txs = append(txs, funding)
 		} else {
@@ -817,7 +824,8 @@ func c20DrawUniverse(t *rapid.T, maxChans int, forceGoodFirst,
 				TxPosition: uint16(rapid.IntRange(0, 1).
 					Draw(t, label+"txp")),
 			},
-			taproot: rapid.IntRange(0, 5).Draw(t, label+"tap") == 0,
+			taproot:  rapid.IntRange(0, 5).Draw(t, label+"tap") == 0,
+			lastSlot: rapid.Bool().Draw(t, label+"last"),
 			capacity: rapid.SampledFrom([]int64{
 				1000, 20_000, 1_000_000, 16_777_215, 500_000_000,
 			}).Draw(t, label+"cap"),
